@@ -8,7 +8,7 @@ PID = "C02"
 LEVEL_TEXT = ("Proof + correspondence: Coq theorems that TrueType pre-processing leaves no glyph with both contours and components "
               "(tt_no_mixed, all glyph sets), that a decomposed mixed glyph holds exactly the nested resolved outline, that "
               "flattening composes matrices by plain composition and the flattened glyph resolves to exactly the same contour list "
-              (flatten_render: all glyph sets, any depth), that the whole pre-processing pipeline with plain reversal leaves every "
+              "(flatten_render: all glyph sets, any depth), that the whole pre-processing pipeline with plain reversal leaves every "
               "glyph rendering exactly the source's contours, each reversed (tt_pre_renders_reversed), that direction reversal is an involution and that glyf points "
               "are the otRound-ed source points with the same flags and count. The model tt_pre/tt_of_glyph is compared exactly "
               "with TTFPreProcessor's glyph set and with the glyf table of compiled, reloaded fonts for cubic-free sources "
